@@ -721,27 +721,50 @@ example : untag (run Cfg.fixed {} [.mkfunc [.del, .send [104]], .mount 0 1 [112]
 /-! ## C13_sock_* — the real socket read path (`BufferedFd::onReadCallback` under any kernel answers) -/
 
 /-- **C13_sock_stream_conserved.** Whatever the kernel answers to the `readv` calls — any sizes of the successful calls, EAGAIN /
-end of file / ECONNRESET / EINTR / EIO at any point, over any number of read events — the deliveries the front end receives,
+end of file / ECONNRESET / EINTR / EIO at any point, over any number of read events (EINTR, like EAGAIN, delivers nothing and
+leaves the queue alone) — the deliveries the front end receives,
 glued together, followed by what is still queued, are exactly the bytes the client wrote: nothing lost, duplicated or
 reordered by the read path (with `C13_telnet_resumable`: the terminal is handed the same thing whatever the segmentation). -/
 theorem C13_sock_stream_conserved (gone : Bool) (kq : Str) (evs : List (List Nat × Nat)) :
     (sockReads gone kq evs).1.flatten ++ (sockReads gone kq evs).2 = kq :=
   sockReads_conserve gone evs kq
 
-/-- **C13_sock_close_rule.** A read event ends the connection only when its FIRST `readv` is answered end of file or an error
-other than EAGAIN — then nothing is delivered; EAGAIN never closes; an answer that follows data in the same event is not looked
-at (it comes back with the next event). EINTR as the first answer does end the session (the code treats every errno but EAGAIN
-as fatal). -/
+/-- **C13_sock_close_rule.** (restated for the repaired read path, fix 1c1abc6.) A read event ends the connection only when its
+FIRST `readv` is answered end of file or an error other than EAGAIN / EINTR — then nothing is delivered. For a scripted first
+answer `term` the event closes exactly when `term` is not transient; EAGAIN and EINTR, wherever in the event the script gives
+them, never close; as the first answer nothing is delivered, the
+queue is untouched, the connection stays (the read event fires again: an EINTR event in front of any sequence of events adds
+one empty delivery and changes nothing else). An answer that follows data in the same event is not looked at (it comes back
+with the next event). -/
 theorem C13_sock_close_rule (kq : Str) (gone : Bool) (cs : List Nat) (term : Nat) :
     ((sockRead kq gone cs term).closed = true → (sockRead kq gone cs term).data = []) ∧
-    (sockRead kq gone [] 1).closed = false ∧ (sockRead kq gone [] 1).rest = kq ∧
-    (sockRead kq gone [] 4).closed = true ∧
+    (term ≠ 0 → (sockRead kq gone [] term).closed = !termTransient term) ∧
+    (termTransient term = true → (rdChunks kq cs).2.2.2 = false → (sockRead kq gone cs term).closed = false) ∧
+    (termTransient term = true → (sockRead kq gone [] term).data = [] ∧ (sockRead kq gone [] term).rest = kq) ∧
+    termTransient 1 = true ∧ termTransient 4 = true ∧
+    (∀ evs, sockReads gone kq (([], 4) :: evs) = ([] :: (sockReads gone kq evs).1, (sockReads gone kq evs).2)) ∧
     (kq ≠ [] → cs ≠ [] → (∀ c ∈ cs, 1 ≤ c) → (sockRead kq gone cs term).closed = false) := by
-  refine ⟨sockRead_closed kq gone cs term, by simp [sockRead, rdChunks], by simp [sockRead, rdChunks], by simp [sockRead, rdChunks], ?_⟩
-  intro hk hc h1
-  cases cs with
-  | nil => exact absurd rfl hc
-  | cons c cs => exact sockRead_open kq gone c cs term hk (h1 c List.mem_cons_self)
+  refine ⟨sockRead_closed kq gone cs term, fun h0 => by simp [sockRead, rdChunks, h0], sockRead_transient kq gone cs term,
+    fun ht => ?_, rfl, rfl, fun evs => ?_, ?_⟩
+  · have h0 : term ≠ 0 := by rintro rfl; simp [termTransient] at ht
+    simp [sockRead, rdChunks, h0]
+  · simp [sockReads, sockRead, rdChunks]
+  · intro hk hc h1
+    cases cs with
+    | nil => exact absurd rfl hc
+    | cons c cs => exact sockRead_open kq gone c cs term hk (h1 c List.mem_cons_self)
+
+-- non-vacuity: EINTR in front of three queued bytes on a live connection: nothing delivered, all three stay, not closed;
+-- ECONNRESET in the same place closes
+example : sockRead [1, 2, 3] false [] 4 = { data := [], rest := [1, 2, 3], closed := false, toks := ["readv=EINTR"] } ∧
+    (sockRead [1, 2, 3] false [] 3).closed = true := by decide
+
+/-- **C13_sock_eintr_as_found.** The read path as found (before fix 1c1abc6: every errno but EAGAIN was fatal) closed a live
+connection on EINTR with the client's bytes still unread; the repaired one keeps it and delivers them with the next event. -/
+theorem C13_sock_eintr_as_found :
+    (sockReadAsFound [1, 2, 3] false [] 4).closed = true ∧ (sockReadAsFound [1, 2, 3] false [] 4).data = [] ∧
+    (sockRead [1, 2, 3] false [] 4).closed = false ∧
+    sockReads false [1, 2, 3] [([], 4), ([], 0)] = ([[], [1, 2, 3]], []) := by decide
 
 example : sockReads false [1, 2, 3, 4, 5] [([2], 1), ([], 1), ([1, 5], 2), ([], 0)] = ([[1, 2], [], [3, 4, 5], []], []) := by decide
 
